@@ -20,10 +20,38 @@ CLAIMS = {
         text="Every Unicode scalar value (1,112,064) in four positions is serialized by Event.Serialize and compared byte-for-byte with an independent NIP-01 serializer; a product of keys x kinds x timestamps x tag shapes x contents is signed with BIP-340 over the reference id and must verify; every single-bit flip of id/pubkey/sig and every single-field change of signed events must not verify. Exhaustive over these stated spaces.",
         note="Trusted: refmodel/nip01ser.go (written from the NIP text, no encoding/json), btcec's schnorr signer as BIP-340 reference, SHA-256. The relay's admission gate (relay.go) is exercised by C12's check, not here.",
         technique=ENUM_TECH, design="DESIGN.md §4 C01"),
+    "C03": dict(engine="seqx", category="model_checking",
+        text="Explicit-state BFS over every insertion history (depth 3 quick / 5 thorough, capacities 1,2,3,(4),100; capacities <= 4 reach a fixpoint) over a 28-event colliding alphabet, each state rebuilt on a fresh real EventCache and keyed on a dump of the complete internal state; in every state 841 filter lists are answered by Find and compared with a tie-tolerant specification over the retained set (both access paths).",
+        note="Trusted: refmodel.MatchFilter and the limit-newest union oracle. Alphabet- and depth-bounded. Ties at a limit cut accept any choice.",
+        technique="explicit-state model checking of the implementation: BFS over operation histories replayed on fresh real objects, full internal state as state key, reference-model oracle in every state", design="DESIGN.md §4 C03-C05"),
+    "C04": dict(engine="seqx", category="model_checking",
+        text="Same exploration as C03; on every transition (listing before, event, flag, listing after) a specification relation written from the property decides whether the step is allowed: capacity, unique ids, one version per address, newest wins, flag iff-rule, who may leave.",
+        note="Equal created_at at one address and the relation between a d-less addressable event and the d=\"\" event of the same author are unclaimed; flag of ephemeral events unclaimed.",
+        technique="explicit-state model checking with step-wise refinement check against a specification relation", design="DESIGN.md §4 C03-C05"),
+    "C05": dict(engine="seqx", category="model_checking",
+        text="Same exploration as C03; step oracle for deletion requests (exactly the author's referenced events leave, re-insertion blocked while the request is retained, request itself listed) plus an author-projection differential check: no event of one author is removed, replaced or refused because of another author's event, except by eviction.",
+        note="a references to plain replaceable kinds are unclaimed (negative claims only), as the property states.",
+        technique="explicit-state model checking with step-wise refinement check and differential (author projection) oracle", design="DESIGN.md §4 C03-C05"),
+    "C06": dict(engine="seqx", category="model_checking",
+        text="BFS over batch histories (single events and ordered pairs as batches, depth 2 quick / 3 thorough) on fresh in-memory SQLite databases keyed on a dump of all five tables; after every batch 353 filter lists are queried and compared with the specification over stored live events (all seven fields, tie-tolerant limit-newest union).",
+        note="Hash seed fixed (12345) with a no-collision check of the alphabet; addressable events without d, deleted deletion requests, a references to plain replaceable kinds unclaimed.",
+        technique="explicit-state model checking of the implementation: BFS over batch histories on fresh real databases, full table dump as state key", design="DESIGN.md §4 C06"),
+    "C08": dict(engine="vsched", category="model_checking",
+        text="All schedules of one real MergeHandler session over scripted REQ children (7 behaviours: stored+EOSE, EOSE+live, unsorted, non-matching, duplicate-of-sibling, EOSE-only, late-EOSE) for every pair of behaviours x 4 client scripts x filter sets; unbounded (complete up to state caching) within a per-job budget, otherwise complete up to a delay bound; oracle on the client stream: one EOSE after all children, ordered de-duplicated matching limited stream before, live events forwarded unchanged in child order after.",
+        note="Events a child sends between its own EOSE and the merged EOSE are unclaimed; histories do not re-issue an id before its EOSE (the property's quantifier).",
+        technique=E1_TECH, design="DESIGN.md §4 C08"),
     "C09": dict(engine="vsched", category="model_checking",
         text="All schedules (unbounded, complete up to happens-before state caching) of one real MergeHandler session over 2-3 scripted children, for every verdict table (accept / three kinds of rejection per child), count table and 7 client scripts including repeated ids in flight; oracle: one OK per EVENT with the right id, verdict and leading reason, one COUNT reply with the maximum.",
         note="Scheduling points are synchronisation operations; sound for data-race-free code. Children are scripted stubs that honour the property's premise (one reply per request). Harness sizes: one session, <= 3 children, <= 3 requests.",
         technique=E1_TECH, design="DESIGN.md §4 C09"),
+    "C12": dict(engine="wsx", category="exploration",
+        text="Every frame sequence up to length 2 (quick) / 3 (thorough) over 20 frame classes x 3 handler scripts through the real Relay.ServeHTTP + coder/websocket on net.Pipe inside a synctest bubble (exact quiescence after every frame): the handler gets exactly the valid authentic frames in order, every other frame gets exactly one rejection, the connection stays usable; every handler-output sequence up to length 3/4 over 10 server messages arrives as equal text frames in order.",
+        note="Enumerates frames/outputs/configurations, not interleavings inside net/http and coder/websocket; net.Pipe instead of TCP. Frames above the size limit (library closes) are unclaimed.",
+        technique="bounded exhaustive enumeration of frame and output sequences on the real WebSocket stack under virtual time with exact quiescence detection", design="DESIGN.md §4 C12"),
+    "C14": dict(engine="faultsql", category="fault_enumeration",
+        text="For 14 batches x 3 pre-states every driver call (begin, each prepare, each exec, commit) is failed in modes error and connection-drop (thorough: process kill in a child process, and second faults during the retry): answers after the failure equal answers before; retry and re-insertion equal one successful insertion. Close/reopen at every subset of batch boundaries of all histories of <= 3 batches over an 8-batch alphabet: answers equal the never-reopened run, seed stable.",
+        note="Crash points are driver-call boundaries; torn pages inside SQLite's pager are trusted to SQLite. The handler's retry loop is not covered.",
+        technique="exhaustive fault-point enumeration with a fault-injecting database/sql driver plus exhaustive enumeration of reopen placements", design="DESIGN.md §4 C14"),
     "C10": dict(engine="seqx", category="exploration",
         text="All token strings up to length 3/4 over a 34-token JSON alphabet (bare and inside 37 message frames), the complete single-point mutation neighbourhood of every valid test-data line and generated message, and a product of protocol values for all 14 message types, events and filters, through all 29 decoder entry points under recover(): no panic, completely filled values, decode-encode-decode stability, value round trip.",
         note="Top-level/nested JSON null, duplicate keys' winner, non-integer number spellings are unclaimed. Validation (C11) is out of scope here.",
